@@ -380,14 +380,19 @@ def check_group_writing(ctx, rng):
     options = pj.make_options(cfg, flow=flow_obj)
     out = io.BytesIO()
     try:
+        # the graphs / datasets handed over as a generator, or as a re-iterable container (list, tuple)
+        as_kind = rng.choice(["generator", "generator", "list", "tuple"])
+        ctx.observe(f"groups-handed-over-as:{as_kind}")
+        cfg["sinks_as"] = as_kind
+        wrap = {"generator": lambda g_: g_, "list": list, "tuple": tuple}[as_kind]
         if integ == "generic":
-            sinks = (pj.generic_sink_of(g, binds) for g in groups)
+            sinks = wrap(pj.generic_sink_of(g, binds) for g in groups)
             if via == "file":
                 gser.grouped_stream_to_file(sinks, out, options=options)
             else:
                 pj.write_frames(gser.grouped_stream_to_frames(sinks, options=options), out, True)
         else:
-            stores = (pj.rdflib_store_of(g, binds, dataset=arity == 4) for g in groups)
+            stores = wrap(pj.rdflib_store_of(g, binds, dataset=arity == 4) for g in groups)
             if via == "file":
                 rser.grouped_stream_to_file(stores, out, options=options)
             else:
@@ -612,10 +617,11 @@ def replay(w: dict):
         options = pj.make_options(cfg, flow=flow_obj)
         out = io.BytesIO()
         arity = 3 if cfg["physical"] == 1 else 4
+        wrap = {"list": list, "tuple": tuple}.get(cfg.get("sinks_as"), lambda x: x)
         if integ == "generic":
-            gser.grouped_stream_to_file((pj.generic_sink_of(g) for g in groups), out, options=options)
+            gser.grouped_stream_to_file(wrap(pj.generic_sink_of(g) for g in groups), out, options=options)
         else:
-            rser.grouped_stream_to_file((pj.rdflib_store_of(g, dataset=arity == 4) for g in groups), out, options=options)
+            rser.grouped_stream_to_file(wrap(pj.rdflib_store_of(g, dataset=arity == 4) for g in groups), out, options=options)
         return judge_groups(integ, out.getvalue(), groups)
     data = bytes.fromhex(w["bytes"])
     orig = bytes.fromhex(w["original"])
